@@ -391,3 +391,92 @@ theorem lex_lines (buf : Bytes) :
   exact lexAll_lines _ (init buf) [] 1 (1 + countNl buf) (by omega) hb.2 (by simp)
 
 end AV.Lex
+
+namespace AV.Lex
+
+theorem xmlHeader_ok (t : Bytes) (ev : Event) (h : xmlHeader t = some (.ok ev)) : ∃ sa, ev = .header sa := by
+  unfold xmlHeader at h
+  split at h
+  · split at h
+    · dsimp only at h
+      split at h
+      · cases h
+      · rename_i sa _
+        simp only [Option.some.injEq, Except.ok.injEq] at h
+        exact ⟨_, h.symm⟩
+    · cases h
+  · cases h
+
+/-- the end-of-file event is only produced at the end of the buffer -/
+theorem step1_eof (s : LState) (l : Nat) (s' : LState) (h : step1 s = .ev l .eof s') : s' = s ∧ s.rest = [] := by
+  unfold step1 at h
+  split at h
+  · cases h; exact ⟨rfl, by assumption⟩
+  · split at h
+    · split at h
+      · cases h
+      · split at h
+        · cases h
+        · split at h
+          · simp [stepEnd] at h
+          · split at h
+            · unfold stepPI at h
+              split at h
+              · cases h
+              · split at h
+                · cases h
+                · rename_i ev hx
+                  simp only [Step.ev.injEq] at h
+                  obtain ⟨sa, hsa⟩ := xmlHeader_ok _ _ hx
+                  rw [hsa] at h
+                  cases h.2.1
+                · cases h
+            · split at h
+              · unfold stepComment at h
+                split at h
+                · cases h
+                · split at h
+                  · cases h
+                  · simp at h
+              · simp [stepBegin] at h
+    · unfold stepChars at h
+      split at h
+      · cases h
+      · simp at h
+
+theorem next_eof_measure (fuel : Nat) (s : LState) (l : Nat) (s' : LState)
+    (h : next fuel s = some (.ok (l, .eof), s')) : measure s' = 0 := by
+  induction fuel generalizing s with
+  | zero =>
+    obtain ⟨rest, line, deferred⟩ := s
+    cases deferred with
+    | some nm => simp [next] at h
+    | none => simp [next] at h
+  | succ fuel ih =>
+    obtain ⟨rest, line, deferred⟩ := s
+    cases deferred with
+    | some nm => simp [next] at h
+    | none =>
+      simp only [next] at h
+      cases hs : step1 ⟨rest, line, none⟩ with
+      | ev l0 e0 s0 =>
+        rw [hs] at h; simp at h
+        obtain ⟨⟨rfl, rfl⟩, rfl⟩ := h
+        have := step1_eof _ _ _ hs
+        rw [this.1]
+        simp only [measure]
+        have hr : rest = [] := this.2
+        simp [hr]
+      | err l0 e0 s0 => rw [hs] at h; simp at h
+      | again s0 => rw [hs] at h; exact ih s0 h
+
+/-- a token never moves the tokenizer backwards -/
+theorem next_measure_le (fuel : Nat) (s : LState) (l : Nat) (e : Event) (s' : LState)
+    (h : next fuel s = some (.ok (l, e), s')) : measure s' ≤ measure s := by
+  rcases next_measure fuel s l e s' h with he | hlt
+  · subst he
+    rw [next_eof_measure fuel s l s' h]
+    exact Nat.zero_le _
+  · omega
+
+end AV.Lex
